@@ -1,4 +1,5 @@
 import Nsq.Model.Aggregate
+import Nsq.Proofs.AggregateDecode
 /-!
 With every guard of `Fixes.all` in place no function of the view model returns a `Fault`:
 helper lemmas for `Nsq.Props.C18.view_no_panic`.
@@ -214,7 +215,7 @@ theorem nsqdStatsGo_ok (w : World) (sel selc : String) (incl : Bool) (ps : List 
     · exact ih _ _ _
     · rename_i ans _
       obtain ⟨⟨tns, m'⟩, h⟩ := topicsOfNode_ok p sel ans m
-      simp only [h]
+      simp only [AggregateDecode.nodeAnswer_all, h]
       exact ih _ _ _
 
 theorem nsqdStats_ok (w : World) (ps : List Producer) (sel selc : String) (incl : Bool) :
